@@ -222,6 +222,7 @@ type synGenOpts struct {
 	PEmpty                        float64 // probability that an alternative is `empty`
 	PLit                          float64 // probability that a terminal is a string literal
 	PDup                          float64 // probability of duplicating an alternative (F9/F10 shape)
+	POptRun                       float64 // probability of adding a run of optional nonterminals (X : empty | t) to a body
 	ErrorAlts                     bool    // add alternatives that begin with `error`
 	Actions                       bool    // logging actions on a random subset of alternatives
 	Reduced                       bool    // remove unproductive nonterminals (C06's domain)
@@ -296,6 +297,38 @@ func genSynGrammar(rng *rand.Rand, o synGenOpts) *SynGrammar {
 			}
 			g.Prods = append(g.Prods, p)
 		}
+	}
+	// runs of optional parts: adjacent nullable nonterminals, each with its own terminal, followed
+	// by a terminal of their own (look-aheads must be propagated through several nullable symbols)
+	if rng.Float64() < o.POptRun && len(g.Prods) > 0 {
+		k := 2 + rng.Intn(2)
+		var run []Sym
+		for j := 0; j < k; j++ {
+			g.NTs = append(g.NTs, fmt.Sprintf("Opt%d", j))
+			g.Terms = append(g.Terms, fmt.Sprintf("o%d", j))
+			g.IsLit = append(g.IsLit, false)
+			nt, t := len(g.NTs)-1, len(g.Terms)-1
+			g.Prods = append(g.Prods, SynProd{Head: nt}, SynProd{Head: nt, Body: []Sym{T(t)}})
+			if rng.Intn(3) == 0 {
+				g.Prods[len(g.Prods)-1].Body = append(g.Prods[len(g.Prods)-1].Body, T(t))
+			}
+			if o.Actions && rng.Intn(2) == 0 {
+				g.Prods[len(g.Prods)-2].Action = "log"
+			}
+			run = append(run, N(nt))
+		}
+		g.Terms = append(g.Terms, "oend")
+		g.IsLit = append(g.IsLit, false)
+		run = append(run, T(len(g.Terms)-1))
+		// a new first alternative of the start symbol: <terminal> Opt0 Opt1 .. oend
+		g.Terms = append(g.Terms, "obegin")
+		g.IsLit = append(g.IsLit, false)
+		body := append([]Sym{T(len(g.Terms) - 1)}, run...)
+		p := SynProd{Head: 0, Body: body}
+		if o.Actions {
+			p.Action = "log"
+		}
+		g.Prods = append(g.Prods, p)
 	}
 	if o.Reduced {
 		g.removeUnproductive()
@@ -452,6 +485,12 @@ func curatedSyn() []*SynGrammar {
 		synG([]string{"S", "U", "V"}, []string{"a", "b"}, P(0, T(0)), P(1, T(1), N(1)), P(2, T(1))),
 		// nullable chains
 		synG([]string{"S", "A", "B"}, []string{"a", "b"}, P(0, N(1), N(2), T(0)), P(1), P(1, T(1)), P(2), P(2, N(1), T(0))),
+		// a declaration with two adjacent optional parts (look-ahead through two nullable symbols)
+		synG([]string{"Decl", "OptType", "OptInit"}, []string{"\"var\"", "name", "\":\"", "\"=\"", "\";\""},
+			P(0, T(0), T(1), N(1), N(2), T(4)), P(1), P(1, T(2), T(1)), P(2), P(2, T(3), T(1))),
+		// three adjacent optional parts, the last alternative made of nullable symbols only
+		synG([]string{"S", "A", "B", "C"}, []string{"a", "b", "c", "z"},
+			P(0, N(1), N(2), N(3), T(3)), P(0, T(3), N(1), N(2)), P(1), P(1, T(0)), P(2), P(2, T(1)), P(3), P(3, T(2))),
 	}
 }
 
